@@ -3,7 +3,7 @@ From IpfsLog Require Import Model.System.
 Open Scope Z_scope.
 
 Definition ex_hist : list op := [
-  ONew 1%N 10%N SHash []; ONew 1%N 20%N SHash []; ONew 1%N 30%N SHash [];
+  ONew 1%N 10%N SHash [] 0; ONew 1%N 20%N SHash [] 0; ONew 1%N 30%N SHash [] 0;
   OAppend 0 1%N 1 101%N; OAppend 0 2%N 2 102%N;
   OAppend 1 1%N 1 201%N;
   OJoin 1 0 (-1);                      (* replica 1 now has two heads: 102 and 201 *)
@@ -16,7 +16,7 @@ Definition ex_hist : list op := [
 
 (* the same with the default ordering and one identity writing on two replicas (an (id,time) tie) *)
 Definition ex_hist_lww : list op := [
-  ONew 1%N 10%N SLww []; ONew 1%N 10%N SLww [];
+  ONew 1%N 10%N SLww [] 0; ONew 1%N 10%N SLww [] 0;
   OAppend 0 1%N 1 101%N; OAppend 1 2%N 1 201%N;
   OJoin 0 1 (-1); OJoin 1 0 (-1) ].
 
@@ -27,7 +27,7 @@ Definition ex_mid : sys := run (firstn 9 ex_hist).
    replica 0 empties itself with bound 0 and then gets the old entry 101 back from replica 2 (which
    merged when the chain had one entry): after the repair of the stale next index 101 is its head *)
 Definition ex_hist_trunc : list op := [
-  ONew 1%N 10%N SHash []; ONew 1%N 20%N SHash []; ONew 1%N 30%N SHash [];
+  ONew 1%N 10%N SHash [] 0; ONew 1%N 20%N SHash [] 0; ONew 1%N 30%N SHash [] 0;
   OAppend 0 1%N 1 101%N; OJoin 2 0 (-1);
   OAppend 0 2%N 1 102%N; OAppend 0 3%N 1 103%N;
   OJoin 1 0 1;                         (* replica 1 = {103}, a causally open log *)
@@ -35,3 +35,15 @@ Definition ex_hist_trunc : list op := [
   OJoin 0 2 (-1);                      (* replica 0 = {101} *)
   OAppend 1 4%N 2 201%N;               (* on top of the truncated log *)
   OJoin 0 1 5 ].                       (* replica 0 = {101, 103, 201}: 102 is missing *)
+
+(* replicas opened with a clock of their own (LogOptions.Clock): replica 0 resumes from a wall-clock
+   style time beyond 2^53 (where float64 has gaps), replica 1 from 2^53, replica 2 from nothing; the
+   appended entries continue from these times and from the merged heads *)
+Definition ex_hist_seeded : list op := [
+  ONew 1%N 10%N SHash [] 1700000000000000001; ONew 1%N 20%N SHash [] 9007199254740992; ONew 1%N 30%N SHash [] 0;
+  OAppend 0 1%N 1 101%N; OAppend 0 2%N 1 102%N;    (* times ...002, ...003 *)
+  OAppend 1 1%N 1 201%N;                            (* 2^53 + 1 *)
+  OAppend 2 1%N 1 301%N;                            (* 1 *)
+  OJoin 1 0 (-1); OAppend 1 3%N 1 202%N;            (* ...004, after both heads *)
+  OJoin 2 1 (-1); OAppend 2 4%N 2 302%N;            (* ...005 *)
+  OJoin 0 2 (-1) ].
